@@ -48,8 +48,8 @@ def body(c):
         "clang ASan/UBSan"]
     c.assumptions += [
         "STATISTICAL: the two rate clauses are decided on seeded aggregates "
-        "(quick: 100 noisy + 50 outlier scenarios per type; thorough 400 + "
-        "200) against wide bounds (<= 5 % rejections at significance 0.001, "
+        "(quick: 200 noisy + 100 outlier scenarios per type; thorough 800 + "
+        "400) against wide bounds (<= 5 % rejections at significance 0.001, "
         ">= 75 % EDOM rejections for a 100-sigma standard); a different "
         "VERIF_SEED draws different scenarios",
         "floating-point comparisons are harness observations, not decided "
